@@ -7,7 +7,10 @@ Import ListNotations.
 (* A subscriber is external behaviour, entering as data of the case:
    uid   : identity of the *Subscription pointer (unique per registration)
    pat   : Match(eventID): None = wildcard, Some p = exact match on p
-   sel   : the subscriber's own selection set (indices of event fields)
+   sel   : the subscriber's own selection set (indices of event fields), as it reads under the
+           variables of the operation that made the subscription: what is included is decided by the
+           values the variables had when the request was made, for every later event (finding F19v:
+           ggql applied the selection set under an empty variable map)
    sched : failure schedule of Send, consumed one entry per delivery
            (true = this delivery fails; exhausted = success)               *)
 Record sub := mkSub { uid : nat; pat : option nat; sel : list nat; sched : list bool }.
